@@ -198,7 +198,16 @@ def main():
     print("extract: %d functions scanned, %d scratch uses, %d problems" % (nfuncs, len(rows), len(problems)))
     for p in problems:
         print("  PROBLEM:", p)
-    sys.exit(1 if problems else 0)
+    # per-property extractors written by the vertical builders (same contract: regenerate, fail closed)
+    import subprocess
+    rc = 0
+    for extra in sorted(glob.glob(os.path.join(ROOT, "tools", "extract_*.py"))):
+        args = (["--src", os.path.join(REPO, "src", "matrix_graph.rs")] if extra.endswith("extract_matrix.py")
+                else [REPO] if extra.endswith("extract_c06.py") else ["--repo", REPO])
+        r = subprocess.run([sys.executable, extra] + args, stdout=subprocess.PIPE, stderr=subprocess.STDOUT, text=True)
+        print(r.stdout.strip())
+        rc = rc or r.returncode
+    sys.exit(1 if (problems or rc) else 0)
 
 if __name__ == "__main__":
     main()
